@@ -100,3 +100,22 @@ package kv
 //@   ensures content-kept: forall a int :: imp(err == nil, has(T(*s.crdt.Mast), a) == old(has(T(*s.crdt.Mast), a)) && T(*s.crdt.Mast)[a] == old(T(*s.crdt.Mast)[a]))
 //@   at call:s3.(Persist).Store assert publish-after-flush: !mastDirty(*s.crdt.Mast) && root != nil
 //@   at call:s3.(Persist).Store assert to-current: true
+
+// ---------------------------------------------------------------------------
+// Cursors over a snapshot of the tree (properties C06, C09, C17).
+//@ func (*DB).Cursor
+//@   requires dbOK(d)
+//@   modifies nothing
+//@   ensures imp(err == nil, result0 != nil && fresh(result0) && result0.Cursor != nil && fresh(result0.Cursor) && gf(result0.Cursor, "snap") == *d.crdt.Mast && 0 <= seqN(*d.crdt.Mast))
+//@   ensures imp(err != nil, result0 == nil)
+
+// Get unwraps the entry at the cursor (every entry of a crdt tree is a crdt.Value)
+//@ spec valueTag() int = iface(crdtpub.Value{}).tag
+//@ func (*Cursor).Get
+//@   requires c != nil && c.Cursor != nil
+//@   requires forall i int :: imp(0 <= i && i < seqN(gf(c.Cursor, "snap")), seqValTag(gf(c.Cursor, "snap"), i) == valueTag())
+//@   modifies nothing
+//@   ensures result2 == (0 <= gf(c.Cursor, "pos") && gf(c.Cursor, "pos") < seqN(gf(c.Cursor, "snap")))
+//@   ensures imp(result2, result0.tag == seqKeyTag(gf(c.Cursor, "snap"), gf(c.Cursor, "pos")) && result0.box == seqKeyBox(gf(c.Cursor, "snap"), gf(c.Cursor, "pos")) &&
+//@       result1 != nil && fresh(result1) && iface(*result1).box == seqValBox(gf(c.Cursor, "snap"), gf(c.Cursor, "pos")))
+//@   ensures imp(!result2, result0 == nil && result1 == nil)
